@@ -56,7 +56,7 @@ if confirmed:
                 rf = rp[0].split('replay=')[1].split()[0]
                 if os.path.exists(rf): shutil.copy(rf, f'{dst}/replay-{p}.json')
     sh('git -C /repo checkout -- . && git -C /repo clean -fdq -- crates proof_parser cli')
-    for g in ('gen.py', 'gen_ast.py', 'gen_asserts.py'):      # the translated files follow /repo: put them back to the clean tree's
+    for g in ('gen.py', 'gen_ast.py', 'gen_asserts.py', 'gen_witness.py'):      # the translated files follow /repo: put them back to the clean tree's
         sh(f'python3 /verif/tools/{g}')
 ran['checks'] = checks
 meta['breaks_property'] = props[0]
